@@ -53,6 +53,7 @@ class Engine:
         self.globals = {}
         self.macros = set()
         self.stubs = []  # every DuckDB connection (cursor()) ever opened on this engine
+        self.disk = {}  # database files that exist on disk but are not attached: file -> schemas dict (ATTACH of such a file loads it)
 
     # -- catalog helpers -------------------------------------------------
     def add_db(self, name: str, file: str = ":memory:") -> None:
@@ -559,7 +560,11 @@ class DuckStub:
                 raise duckdb.BinderException(
                     f'Binder Error: Failed to attach database: database with name "{name}" already exists'
                 )
-            eng.dbs[U(name)] = {"file": file, "schemas": {"MAIN": {}}}
+            if file in eng.disk:
+                # attaching an existing database file: its committed content (same objects) becomes visible
+                eng.dbs[U(name)] = {"file": file, "schemas": eng.disk[file]}
+            else:
+                eng.dbs[U(name)] = {"file": file, "schemas": {"MAIN": {}}}
             self.attached = (U(name), file)
         elif head == "CREATE" and text.strip().upper().startswith("MACRO"):
             eng.macros.add(text.strip())
